@@ -2,6 +2,7 @@ package os
 
 import (
 	"errors"
+	iofs "io/fs"
 	"strings"
 
 	"github.com/hack-pad/hackpadfs"
@@ -78,7 +79,7 @@ func c09FS(conv c09Conv) (*FS, string) {
 	}()
 	for i := 0; i < subs; i++ {
 		dir := c09String(verifName("dir", i), verifParam("DIRLEN"))
-		verifAssume(hackpadfs.ValidPath(dir))
+		verifAssume(iofs.ValidPath(dir))
 		sub, err := fs.Sub(dir)
 		verifAssert(err == nil, "Sub with a valid directory failed")
 		fs = sub.(*FS)
@@ -129,7 +130,7 @@ func VerifC09To() {
 		verifTag("name", "contains-backslash")
 	}
 	got, perr := fs.toOSPath(conv.goos, conv.sep, "op", name)
-	if !hackpadfs.ValidPath(name) {
+	if !iofs.ValidPath(name) {
 		verifReach("to-invalid")
 		verifAssert(perr != nil, "toOSPath accepted an invalid name")
 		verifAssert(errors.Is(perr, hackpadfs.ErrInvalid), "toOSPath: error for an invalid name must match ErrInvalid")
@@ -148,7 +149,7 @@ func VerifC09RoundTrip() {
 	conv := c09Convention()
 	fs, _ := c09FS(conv)
 	name := c09String("name", verifParam("NAMELEN"))
-	verifAssume(hackpadfs.ValidPath(name))
+	verifAssume(iofs.ValidPath(name))
 	if conv.sep == '\\' {
 		hasBackslash := strings.IndexByte(name, '\\') >= 0
 		if hasBackslash {
@@ -208,5 +209,5 @@ func VerifC09From() {
 	}
 	inside := osPath == rootOS || strings.HasPrefix(osPath, strings.TrimSuffix(rootOS, sep)+sep)
 	verifAssert(inside, "fromOSPath accepted an OS path outside the root (or not at an element boundary)")
-	verifAssert(hackpadfs.ValidPath(got), "fromOSPath returned a string that is not a valid FS path")
+	verifAssert(iofs.ValidPath(got), "fromOSPath returned a string that is not a valid FS path")
 }
